@@ -196,7 +196,8 @@ Definition handler_frame (e : ep) (oid : nat) (o : hobj) (f : frame) (utf8 : boo
           else (e, [], true)                                   (* subscription is None: AttributeError *)
       | FRequestN _ _ n => if o_has_pub o then (e, [XPub oid (PRequestN n)], false) else (e, [], false)
       | FPayload _ _ _ co nx md d =>
-          if (nx || co) && negb (o_has_sub o) then (e, [], true)       (* remote_subscriber is None *)
+          if o_recv o then (e, [], false)      (* receive direction closed: payloads still in flight are dropped *)
+          else if (nx || co) && negb (o_has_sub o) then (e, [], true)       (* remote_subscriber is None *)
           else
             let effs := if nx then [XCb oid (SNext md d co)] else if co then [XCb oid SComplete] else [] in
             ((if co then chan_mark e oid o false true else e), effs, false)
